@@ -470,13 +470,19 @@ theorem cbrtOp_eq (c : Ctx) (x : Dec) (hs : rootSpecials c x 3 = none) :
   generalize scaleLoop (fun z => decide (z.cmp decOneEighth < 0)) decEight 400000 _ x.absD 0 = s1
   cases s1 with
   | none => rfl
-  | some t =>
+  | some t0 =>
+    cases t0 with
+    | inl er => rfl
+    | inr t =>
     obtain ⟨ed, z, down⟩ := t
     simp only []
     generalize scaleLoop (fun z => decide (z.cmp decOne > 0)) decOneEighth 400000 ed z 0 = s2
     cases s2 with
     | none => rfl
-    | some t2 =>
+    | some t1 =>
+      cases t1 with
+      | inl er => rfl
+      | inr t2 =>
       obtain ⟨ed2, z2, up⟩ := t2
       simp only []
       generalize cbrtIter _ _ _ _ _ _ _ _ = s3
@@ -607,14 +613,30 @@ theorem cbrtIter_inl_ne (c : Ctx) (prec : Int) (maxIter : Nat) (ax : Dec) (fuel 
       · cases hi
       · exact ih _ _ _ hi
 
+theorem scaleLoop_inl_ne (test : Dec → Bool) (k : Dec) (fuel : Nat) :
+    ∀ (e : ED) (z : Dec) (n : Nat) {er : ErrKind}, scaleLoop test k fuel e z n = some (.inl er) → er ≠ .none := by
+  induction fuel with
+  | zero => intro e z n er hs; simp [scaleLoop] at hs
+  | succ f ih =>
+    intro e z n er hs
+    unfold scaleLoop at hs
+    simp only [] at hs
+    split at hs
+    · split at hs
+      · next hf => cases hs; exact ED.errOf_ne_none hf
+      · exact ih _ _ _ hs
+    · cases hs
+
 theorem cbrtNewton_inl_ne {c : Ctx} {ax : Dec} {er : ErrKind} (hn : cbrtNewton c ax = some (.inl er)) :
     er ≠ .none := by
   unfold cbrtNewton at hn
   simp only [] at hn
   split at hn
   · cases hn
+  · next h1 => cases hn; exact scaleLoop_inl_ne _ _ _ _ _ _ h1
   · split at hn
     · cases hn
+    · next h2 => cases hn; exact scaleLoop_inl_ne _ _ _ _ _ _ h2
     · split at hn
       · cases hn
       · next hi => cases hn; exact cbrtIter_inl_ne _ _ _ _ _ _ _ _ hi
